@@ -12,7 +12,9 @@ package cluster
 // right after the last write of the history with a gated consumer released while the server
 // is down and no write after the recovery), a watch blackout / cut through a TCP relay
 // (second etcd client used only for the watch path) and a compaction that cancels the
-// lagging watch.  After the case the content of the key range at EVERY revision is read
+// lagging watch.  LARGE watched prefixes (hundreds of keys) are rewritten by concurrent
+// writers whose transactions change keys of distant regions of the prefix atomically while
+// the syncers pull.  After the case the content of the key range at EVERY revision is read
 // back from etcd (Get WithRev) and every delivered snapshot is matched against it.
 
 import (
@@ -60,7 +62,8 @@ type c19SubSpec struct {
 }
 
 type c19Step struct {
-	Do      string       `json:"do"` // write subscribe waitfirst pause unpause cut stop start outage fill compact release settle sleep
+	Do      string       `json:"do"`          // write subscribe waitfirst pause unpause cut stop start outage fill compact release settle sleep populate
+	N       int          `json:"n,omitempty"` // populate: size of the key universe k0000..k<N-1> (4 of 5 are created)
 	Writers [][]c19Op    `json:"writers,omitempty"`
 	Subs    []c19SubSpec `json:"subs,omitempty"`
 	Ms      int          `json:"ms,omitempty"`
@@ -79,7 +82,8 @@ type c19Case struct {
 	Kind       string    `json:"kind"`
 	IntervalMs int       `json:"pull_interval_ms"`
 	Ending     string    `json:"ending"`
-	Last       string    `json:"last_write_before_stop,omitempty"` // outage-final: shape of the last write
+	Last       string    `json:"last_write_before_stop,omitempty"`    // outage-final: shape of the last write
+	Universe   int       `json:"large_prefix_key_universe,omitempty"` // large-prefix: keys k0000..k<n-1> under the watched prefix
 	Steps      []c19Step `json:"steps"`
 }
 
@@ -130,6 +134,72 @@ func c19GenOps(rng *rand.Rand, n int, txnW float64) []c19Op {
 	}
 	return ops
 }
+
+// c19LargeKey names key i of a large prefix; the names sort like the indices.
+func c19LargeKey(i int) string { return fmt.Sprintf("k%04d", i) }
+
+// c19LargePresent: which keys of the universe the populate step creates (the others can be
+// created later by the writers).
+func c19LargePresent(i int) bool { return i%5 != 4 }
+
+// c19GenLargeOps: writes over a large prefix.  Most of them are transactions that change
+// keys of DISTANT regions of the (sorted) prefix atomically: a key of the first quarter and a
+// key of the last quarter, optionally more keys anywhere and the single watched key "a"
+// (which sorts before every k-key); puts of unique values and deletes, "move" = delete one
+// key and create/overwrite a distant one.  Writers do not pause (a rare 1-3 ms sleep), so
+// that commits land while the syncers' pulls are under way.
+func c19GenLargeOps(rng *rand.Rand, n, universe int) []c19Op {
+	q := universe / 4
+	far := func(extraMax int) []string {
+		ks := []string{c19LargeKey(rng.Intn(q)), c19LargeKey(universe - 1 - rng.Intn(q))}
+		for extra := rng.Intn(extraMax + 1); extra > 0; extra-- {
+			ks = append(ks, c19LargeKey(rng.Intn(universe)))
+		}
+		if rng.Intn(4) == 0 {
+			ks = append(ks, "a")
+		}
+		seen := map[string]bool{}
+		out := ks[:0]
+		for _, k := range ks {
+			if !seen[k] {
+				seen[k] = true
+				out = append(out, k)
+			}
+		}
+		rng.Shuffle(len(out), func(i, j int) { out[i], out[j] = out[j], out[i] })
+		return out
+	}
+	var ops []c19Op
+	for len(ops) < n {
+		x := rng.Float64()
+		switch {
+		case x < 0.50:
+			op := c19Op{T: "txn", Ks: far(3)}
+			for range op.Ks {
+				op.Del = append(op.Del, rng.Float64() < 0.25)
+			}
+			ops = append(ops, op)
+		case x < 0.65:
+			ks := far(0)[:2]
+			ops = append(ops, c19Op{T: "txn", Ks: ks, Del: []bool{true, false}}) // move
+		case x < 0.80:
+			ops = append(ops, c19Op{T: "put", K: c19LargeKey(rng.Intn(universe))})
+		case x < 0.86:
+			ops = append(ops, c19Op{T: "del", K: c19LargeKey(rng.Intn(universe))})
+		case x < 0.91:
+			ops = append(ops, c19Op{T: []string{"put", "put", "del"}[rng.Intn(3)], K: "a"})
+		case x < 0.94:
+			ops = append(ops, c19Op{T: "same", K: c19LargeKey(rng.Intn(universe))})
+		case x < 0.97:
+			ops = append(ops, c19Op{T: "put", K: pick19(rng, c19Outside)})
+		default:
+			ops = append(ops, c19Op{T: "sleep", Ms: 1 + rng.Intn(3)})
+		}
+	}
+	return ops
+}
+
+func pick19(rng *rand.Rand, l []string) string { return l[rng.Intn(len(l))] }
 
 func c19GenBurst(rng *rand.Rand, n int) []c19Op {
 	var ops []c19Op
@@ -231,6 +301,10 @@ var c19Pattern = []string{
 // "outage-long" cases and then as many "outage-final" cases at fixed positions (with the 8
 // quick shards: one of the two kinds per shard), so that the quick tier always contains them.
 const c19LongPerBlock = 4
+
+// c19LargePerBlock: after those come this many "large-prefix" cases (with the 8 quick shards:
+// one per shard).
+const c19LargePerBlock = 8
 
 // c19LastWrites: shapes of the last write of an "outage-final" history.  blocker = the change
 // whose delivery finds the gated consumer's channel full (the syncer then sits in its send),
@@ -380,6 +454,28 @@ func c19GenCase(rng *rand.Rand, kind string) *c19Case {
 		// request timeout
 		add(c19Step{Do: "outage", Ms: rng.Intn(800), Writers: [][]c19Op{lw.fin}, Coincide: rng.Intn(4) == 0, After: rng.Intn(31), ReleaseDown: true, Pulls: 2 + len(lw.fin)})
 		cs.Ending = "none"
+	case "large-prefix":
+		// The watched prefix holds HUNDREDS of keys (more than any page a reader might
+		// cut the range into); 2-3 writers change keys of distant regions of the prefix in
+		// single transactions, back to back, while all four Sync* kinds are subscribed and
+		// at least one prefix consumer is fast (every commit makes the syncers pull).  Every
+		// delivered snapshot must be the content of the prefix at ONE revision.
+		cs.Universe = 300 + rng.Intn(201)
+		add(c19Step{Do: "populate", N: cs.Universe})
+		subs := c19GenSubs(rng, false, []string{"fast", "fast", "fast", "slow"})
+		fast := &subs[2+rng.Intn(2)] // SyncPrefix or SyncRawPrefix
+		fast.Mode, fast.Delay = "fast", 0
+		var w [][]c19Op
+		for i, nw := 0, 2+rng.Intn(2); i < nw; i++ {
+			w = append(w, c19GenLargeOps(rng, 35+rng.Intn(21), cs.Universe))
+		}
+		if rng.Intn(3) == 0 {
+			// subscribed while the writers run: the first pull overlaps commits as well
+			add(c19Step{Do: "write", Writers: w, Fault: "subscribe", After: 3 + rng.Intn(20), Subs: subs})
+		} else {
+			add(c19Step{Do: "subscribe", Subs: subs})
+			add(c19Step{Do: "write", Writers: w})
+		}
 	case "subscribe-down":
 		add(prepop)
 		add(c19Step{Do: "stop"})
@@ -708,6 +804,15 @@ type c19Run struct {
 	abort       string // non-empty: the case could not be carried out (inconclusive)
 	truthLost   bool
 
+	// large-prefix cases: revisions read right before and right after the step in which the
+	// concurrent writers ran (a snapshot matched to a revision strictly between them was
+	// pulled while the writers were still committing)
+	large            bool
+	phaseLo, phaseHi int64
+
+	projKV  map[string][]map[string]string // per watched range: projection of truth.at(r), filled lazily
+	projRaw map[string][]map[string]c19RawKV
+
 	canaryCancel    context.CancelFunc
 	canaryCompacted int32
 	canaryDone      chan struct{}
@@ -855,6 +960,17 @@ func (cr *c19Run) writer(w int, ops []c19Op, after func()) {
 				}
 			}
 			err = c.PutAndDelete(m)
+			if err == nil && cr.large {
+				under := 0
+				for k := range m {
+					if strings.HasPrefix(k, cr.P) {
+						under++
+					}
+				}
+				if under >= 2 {
+					cr.r.Count("large_prefix_atomic_multi_key_commits", 1)
+				}
+			}
 		case "sleep":
 			time.Sleep(time.Duration(op.Ms) * time.Millisecond)
 			after()
@@ -888,6 +1004,16 @@ func (cr *c19Run) doRestart(downMs int) {
 }
 
 func (cr *c19Run) write(st *c19Step) {
+	if cr.large && len(st.Writers) >= 2 && cr.phaseLo == 0 {
+		if rv, err := cr.g.waitRev(c19HarnessTimeout); err == nil {
+			cr.phaseLo = rv
+			defer func() {
+				if rv, err := cr.g.waitRev(c19HarnessTimeout); err == nil {
+					cr.phaseHi = rv
+				}
+			}()
+		}
+	}
 	var done int64
 	trigger := make(chan struct{})
 	var once sync.Once
@@ -1089,6 +1215,8 @@ func (cr *c19Run) step(st *c19Step) {
 		cr.write(st)
 	case "subscribe":
 		cr.subscribe(st.Subs)
+	case "populate":
+		cr.populate(st.N)
 	case "waitfirst":
 		// the relay's watches must be established before the relay is black-holed
 		// (clientv3 Watch blocks until the server confirmed the creation): wait for the
@@ -1161,6 +1289,50 @@ func (cr *c19Run) step(st *c19Step) {
 	case "sleep":
 		time.Sleep(time.Duration(st.Ms) * time.Millisecond)
 	}
+}
+
+// populate creates 4 of 5 keys of the universe k0000..k<n-1> under the watched prefix (plus
+// the single watched key and one key outside), 50 per transaction.
+func (cr *c19Run) populate(n int) {
+	batch := map[string]*string{}
+	flush := func() bool {
+		if len(batch) == 0 {
+			return true
+		}
+		var err error
+		for try := 0; try < 3; try++ {
+			if err = cr.g.c.PutAndDelete(batch); err == nil {
+				break
+			}
+			time.Sleep(200 * time.Millisecond)
+		}
+		batch = map[string]*string{}
+		if err != nil {
+			cr.abort = "populating the large prefix failed: " + err.Error()
+			return false
+		}
+		return true
+	}
+	created := 0
+	for _, sym := range []string{"a", "xa"} {
+		v := cr.newVal(9)
+		batch[cr.key(sym)] = &v
+	}
+	for i := 0; i < n; i++ {
+		if !c19LargePresent(i) {
+			continue
+		}
+		v := cr.newVal(9)
+		batch[cr.key(c19LargeKey(i))] = &v
+		created++
+		if len(batch) >= 50 && !flush() {
+			return
+		}
+	}
+	if !flush() {
+		return
+	}
+	cr.r.Max("max:large_prefix_keys_populated", int64(created))
 }
 
 // fill brings every gated subscription into the state "channel full, syncer sitting in
@@ -1529,6 +1701,160 @@ func c19KeysOf(m map[string]string) []string {
 	return out
 }
 
+// proj / projRawAt: the content of the subscription's key or prefix at revision r of the
+// ground truth (cached: a large prefix is projected once per revision, not once per probe).
+func (cr *c19Run) proj(s *c19Sub, r int64) map[string]string {
+	t := cr.truth
+	if r < t.from || r > t.last() {
+		return c19Project(t.at(r), s)
+	}
+	if cr.projKV == nil {
+		cr.projKV = map[string][]map[string]string{}
+	}
+	id := fmt.Sprintf("%v|%s", s.Prefix, s.Key)
+	c := cr.projKV[id]
+	if len(c) != len(t.revs) {
+		nc := make([]map[string]string, len(t.revs))
+		copy(nc, c)
+		c = nc
+		cr.projKV[id] = c
+	}
+	if c[r-t.from] == nil {
+		c[r-t.from] = c19Project(t.at(r), s)
+	}
+	return c[r-t.from]
+}
+
+func (cr *c19Run) projRawAt(s *c19Sub, r int64) map[string]c19RawKV {
+	t := cr.truth
+	if r < t.from || r > t.last() {
+		return c19ProjectRaw(t.at(r), s)
+	}
+	if cr.projRaw == nil {
+		cr.projRaw = map[string][]map[string]c19RawKV{}
+	}
+	id := fmt.Sprintf("%v|%s", s.Prefix, s.Key)
+	c := cr.projRaw[id]
+	if len(c) != len(t.revs) {
+		nc := make([]map[string]c19RawKV, len(t.revs))
+		copy(nc, c)
+		c = nc
+		cr.projRaw[id] = c
+	}
+	if c[r-t.from] == nil {
+		c[r-t.from] = c19ProjectRaw(t.at(r), s)
+	}
+	return c[r-t.from]
+}
+
+// c19BriefLimit: contents with more keys are shown in violation details by size and
+// difference, not in full.
+const c19BriefLimit = 12
+
+func c19Brief(m map[string]string) interface{} {
+	if len(m) <= c19BriefLimit {
+		return c19KeysOf(m)
+	}
+	return fmt.Sprintf("%d keys", len(m))
+}
+
+// c19Diff lists (at most max entries of) how one content (la) differs from another (lb).
+func c19Diff(snap, store map[string]string, la, lb string, max int) (n int, items []string) {
+	var keys []string
+	for k := range snap {
+		keys = append(keys, k)
+	}
+	for k := range store {
+		if _, ok := snap[k]; !ok {
+			keys = append(keys, k)
+		}
+	}
+	sort.Strings(keys)
+	for _, k := range keys {
+		a, inSnap := snap[k]
+		b, inStore := store[k]
+		if inSnap && inStore && a == b {
+			continue
+		}
+		n++
+		if len(items) >= max {
+			continue
+		}
+		switch {
+		case !inStore:
+			items = append(items, fmt.Sprintf("%s: %s=%s %s=<absent>", k, la, a, lb))
+		case !inSnap:
+			items = append(items, fmt.Sprintf("%s: %s=<absent> %s=%s", k, la, lb, b))
+		default:
+			items = append(items, fmt.Sprintf("%s: %s=%s %s=%s", k, la, a, lb, b))
+		}
+	}
+	return n, items
+}
+
+// mixedOf examines a snapshot that equals the store's content at NO revision of the case:
+// did every key, taken alone, have the snapshot's state (that value / absent) at some
+// revision?  Then the snapshot is assembled from the store's contents at several revisions.
+// Also returns the revision whose content is closest to the snapshot.
+func (cr *c19Run) mixedOf(s *c19Sub, snap map[string]string) (mixed bool, closest int64, nDiff int, diff []string, perKeyRevs []string) {
+	t := cr.truth
+	keys := map[string]bool{}
+	for k := range snap {
+		keys[k] = true
+	}
+	for r := t.from; r <= t.last(); r++ {
+		for k := range cr.proj(s, r) {
+			keys[k] = true
+		}
+	}
+	firstRev := map[string]int64{} // per key: first revision at which the key had the snapshot's state
+	closest, nDiff = -1, 1<<30
+	for r := t.from; r <= t.last(); r++ {
+		c := cr.proj(s, r)
+		d := 0
+		for k := range keys {
+			a, inSnap := snap[k]
+			b, inStore := c[k]
+			if inSnap == inStore && a == b {
+				if _, ok := firstRev[k]; !ok {
+					firstRev[k] = r
+				}
+			} else {
+				d++
+			}
+		}
+		if d < nDiff {
+			closest, nDiff = r, d
+		}
+	}
+	mixed = len(firstRev) == len(keys)
+	if closest >= 0 {
+		var items []string
+		_, items = c19Diff(snap, cr.proj(s, closest), "snapshot", "store", 12)
+		diff = items
+		if mixed {
+			// the keys that differ from the closest revision, with a revision at which each had the snapshot's state
+			c := cr.proj(s, closest)
+			var ks []string
+			for k := range keys {
+				a, inSnap := snap[k]
+				b, inStore := c[k]
+				if !(inSnap == inStore && a == b) {
+					ks = append(ks, k)
+				}
+			}
+			sort.Strings(ks)
+			for _, k := range ks {
+				if len(perKeyRevs) >= 12 {
+					break
+				}
+				perKeyRevs = append(perKeyRevs, fmt.Sprintf("%s had the snapshot's state at revision %d", k, firstRev[k]))
+			}
+		}
+	}
+	return
+}
+
 // c19Safety: every snapshot equals the content at some revision r_i >= subscription,
 // r_i non-decreasing, consecutive snapshots differ.
 func (cr *c19Run) safety(s *c19Sub) (viols []c19Viol) {
@@ -1544,17 +1870,25 @@ func (cr *c19Run) safety(s *c19Sub) (viols []c19Viol) {
 	excerpt := func(i int) map[string]interface{} {
 		d := map[string]interface{}{"subscription": s.name(), "watched": s.Key, "prefix": s.Prefix, "delivery_index": i,
 			"deliveries": len(deliv), "subscribed_at_revision": s.RevSub, "truth_revisions": []int64{t.from, t.last()},
-			"snapshot": c19KeysOf(deliv[i].KV), "lower_bound_revision": lo}
+			"snapshot": c19Brief(deliv[i].KV), "snapshot_keys": len(deliv[i].KV), "lower_bound_revision": lo}
 		if i > 0 {
-			d["previous_snapshot"] = c19KeysOf(deliv[i-1].KV)
+			d["previous_snapshot"] = c19Brief(deliv[i-1].KV)
 		}
 		// the store's distinct contents (as this subscription sees them) from the lower bound on
 		var hist []string
 		var prev map[string]string
 		for r := lo; r <= t.last() && len(hist) < 25; r++ {
-			c := c19Project(t.at(r), s)
+			c := cr.proj(s, r)
 			if prev == nil || !c19EqKV(c, prev) {
-				hist = append(hist, fmt.Sprintf("rev %d: %v", r, c19KeysOf(c)))
+				switch {
+				case len(c) <= c19BriefLimit:
+					hist = append(hist, fmt.Sprintf("rev %d: %v", r, c19KeysOf(c)))
+				case prev == nil:
+					hist = append(hist, fmt.Sprintf("rev %d: %d keys", r, len(c)))
+				default:
+					n, items := c19Diff(c, prev, "now", "before", 6)
+					hist = append(hist, fmt.Sprintf("rev %d: %d keys, %d changed: %v", r, len(c), n, items))
+				}
 				prev = c
 			}
 		}
@@ -1584,7 +1918,7 @@ func (cr *c19Run) safety(s *c19Sub) (viols []c19Viol) {
 		}
 		found := int64(-1)
 		for r := lo; r <= t.last(); r++ {
-			if c19EqKV(c19Project(t.at(r), s), d.KV) {
+			if c19EqKV(cr.proj(s, r), d.KV) {
 				found = r
 				break
 			}
@@ -1592,7 +1926,7 @@ func (cr *c19Run) safety(s *c19Sub) (viols []c19Viol) {
 		if found < 0 {
 			ever := int64(-1)
 			for r := t.from; r < lo; r++ {
-				if c19EqKV(c19Project(t.at(r), s), d.KV) {
+				if c19EqKV(cr.proj(s, r), d.KV) {
 					ever = r
 				}
 			}
@@ -1604,7 +1938,22 @@ func (cr *c19Run) safety(s *c19Sub) (viols []c19Viol) {
 			var class string
 			switch {
 			case ever < 0:
+				// equal to the content at NO revision.  If every key, taken alone, had the
+				// snapshot's state at some revision, the snapshot mixes the contents of
+				// several revisions (e.g. keys changed by one transaction appear half
+				// old, half new); otherwise it holds something the store never held.
 				class = "phantom-snapshot-never-a-store-content"
+				mixed, closest, nDiff, diff, perKey := cr.mixedOf(s, d.KV)
+				if mixed {
+					class = "phantom-snapshot-mixes-several-store-revisions"
+					x["each_differing_key_alone"] = perKey
+				}
+				x["closest_revision"] = closest
+				x["keys_differing_from_closest_revision"] = nDiff
+				x["differences_to_closest_revision"] = diff
+				if cr.large {
+					x["concurrent_write_phase_revisions"] = []int64{cr.phaseLo, cr.phaseHi}
+				}
 			case i == 0:
 				class = "first-snapshot-older-than-subscription"
 			case ever < s.RevSub:
@@ -1631,12 +1980,24 @@ func (cr *c19Run) safety(s *c19Sub) (viols []c19Viol) {
 		}
 		// distinct contents the syncer skipped between two deliveries (allowed; coverage only)
 		for r := lo + 1; r < found; r++ {
-			if !c19EqKV(c19Project(t.at(r), s), c19Project(t.at(r-1), s)) {
+			if !c19EqKV(cr.proj(s, r), cr.proj(s, r-1)) {
 				skipped++
 			}
 		}
 		lo = found
 		cr.r.Count("snapshots_matched_to_a_revision", 1)
+		if cr.large {
+			cr.r.Max("max:large_prefix_keys_in_a_snapshot", int64(len(d.KV)))
+			if s.Prefix && len(d.KV) > 200 {
+				cr.r.Count("large_prefix_snapshots_of_more_than_200_keys_matched_to_one_revision", 1)
+				if found > cr.phaseLo && found < cr.phaseHi {
+					// the content of a revision the concurrent writers went beyond: this
+					// pull was served while they were still committing
+					cr.r.Count("large_prefix_snapshots_pulled_while_writers_were_committing", 1)
+					cr.r.Count("large_prefix_snapshots_pulled_while_writers_were_committing:"+s.Spec.Kind, 1)
+				}
+			}
+		}
 		if d.Raw != nil {
 			if loRaw < lo {
 				// the raw form fixes the revision at least as tightly as the key/value form
@@ -1644,14 +2005,16 @@ func (cr *c19Run) safety(s *c19Sub) (viols []c19Viol) {
 			}
 			fr := int64(-1)
 			for r := loRaw; r <= t.last(); r++ {
-				if c19EqRaw(c19ProjectRaw(t.at(r), s), d.Raw) {
+				if c19EqRaw(cr.projRawAt(s, r), d.Raw) {
 					fr = r
 					break
 				}
 			}
 			if fr < 0 {
 				x := excerpt(i)
-				x["raw"] = d.Raw
+				if len(d.Raw) <= c19BriefLimit {
+					x["raw"] = d.Raw
+				}
 				viols = append(viols, c19Viol{"raw-snapshot-metadata-not-a-store-state:" + s.Spec.Kind, x})
 			} else {
 				loRaw = fr
@@ -1851,6 +2214,12 @@ func (cr *c19Run) run() bool {
 	}
 
 	// evidence
+	if cr.large {
+		r.Count("large_prefix_cases_completed", 1)
+		for _, s := range subs {
+			r.Count("large_prefix_subscriptions_checked:"+s.Spec.Kind, 1)
+		}
+	}
 	r.Count("cases_completed", 1)
 	r.Count("cases_"+cr.cs.Kind, 1)
 	if cr.restarted {
@@ -1894,7 +2263,7 @@ func (cr *c19Run) run() bool {
 func TestVerif_C19_Syncer(t *testing.T) {
 	r := kit.Start(t, "C19")
 	defer r.Finish()
-	r.Rule("seeded histories against a real embedded etcd (cluster.New): 1-3 concurrent writers issue puts of UNIQUE values, deletes, same-value puts, delete-then-recreate, multi-key transactions and prefix deletes through the cluster API on 5 keys under the watched prefix (incl. the key equal to the prefix string and a key extending the single watched key) and 3 keys outside it; consumers of Sync/SyncRaw/SyncPrefix/SyncRawPrefix are fast, slow (20-120 ms per receive) or gated until the 10-slot channel is full; case kinds: empty start, pre-populated+burst+gated, transaction-heavy, subscribe during writes, static store, server stop/start during writes / right after the last write / before subscribing (quick restarts: down 0-1.5 s, shorter than the 4 s request timeout, so pulls merely stall), LONG server outage (4 per block of 48 cases, one long-outage case of either sort per quick shard: non-empty watched prefix, all four Sync* kinds subscribed and settled, server down for >= request timeout + 3 pull intervals so that the periodic pulls FAIL - a reference pull through the same cluster client started one interval after the stop is observed to fail before the server is started again - then an idle period and writes after the recovery), LONG OUTAGE AFTER THE LAST WRITE (4 per block as well: all four Sync* kinds subscribed to a non-empty store, at least one single-key and one prefix consumer gated and the others fast, slow or gated; feedback-paced unique puts fill the gated 10-slot channels and one more change leaves the syncer sitting in its 11th send; then the LAST write of the history is made - value, delete, create, delete+recreate, txn swap, prefix delete, other key then value; in 1 of 4 cases concurrently with the stop - the server is stopped, the gated consumers are released while it is down so that the pull triggered by the last write's watch event fails, the server is held down for 3-4 request timeouts + 3 pull intervals with a failing reference pull, is started again, and NOTHING is written any more: what a subscription lacks at the end of the outage can only come from the periodic pull; the bounded-convergence oracle decides and its signature gets the suffix :after-long-outage-without-later-write, or :after-server-restart-without-later-write after a quick restart), watch blackout to the end or healed or cut (second etcd client through a TCP relay for the watch path only), compaction that cancels the lagging watch; each case ends with a chosen last change (value only, delete only, create only, delete+recreate, same value, txn swap, prefix delete, outside only, none).  Ground truth = Get(WithRev) of the key range at every revision of the case.  Every delivery - before, during and after an outage - must be the content at some revision at or after the subscription; a delivery that is not gets the signature <what it is>:<Sync kind>[:empty-snapshot][:while-server-down|:after-server-outage].  distinct = (case kind, subscription kind/mode/relay, ending, #deliveries bucket, final size bucket)")
+	r.Rule("seeded histories against a real embedded etcd (cluster.New): 1-3 concurrent writers issue puts of UNIQUE values, deletes, same-value puts, delete-then-recreate, multi-key transactions and prefix deletes through the cluster API on 5 keys under the watched prefix (incl. the key equal to the prefix string and a key extending the single watched key) and 3 keys outside it; consumers of Sync/SyncRaw/SyncPrefix/SyncRawPrefix are fast, slow (20-120 ms per receive) or gated until the 10-slot channel is full; case kinds: empty start, pre-populated+burst+gated, transaction-heavy, subscribe during writes, static store, server stop/start during writes / right after the last write / before subscribing (quick restarts: down 0-1.5 s, shorter than the 4 s request timeout, so pulls merely stall), LONG server outage (4 per block of 48 cases, one long-outage case of either sort per quick shard: non-empty watched prefix, all four Sync* kinds subscribed and settled, server down for >= request timeout + 3 pull intervals so that the periodic pulls FAIL - a reference pull through the same cluster client started one interval after the stop is observed to fail before the server is started again - then an idle period and writes after the recovery), LONG OUTAGE AFTER THE LAST WRITE (4 per block as well: all four Sync* kinds subscribed to a non-empty store, at least one single-key and one prefix consumer gated and the others fast, slow or gated; feedback-paced unique puts fill the gated 10-slot channels and one more change leaves the syncer sitting in its 11th send; then the LAST write of the history is made - value, delete, create, delete+recreate, txn swap, prefix delete, other key then value; in 1 of 4 cases concurrently with the stop - the server is stopped, the gated consumers are released while it is down so that the pull triggered by the last write's watch event fails, the server is held down for 3-4 request timeouts + 3 pull intervals with a failing reference pull, is started again, and NOTHING is written any more: what a subscription lacks at the end of the outage can only come from the periodic pull; the bounded-convergence oracle decides and its signature gets the suffix :after-long-outage-without-later-write, or :after-server-restart-without-later-write after a quick restart), watch blackout to the end or healed or cut (second etcd client through a TCP relay for the watch path only), compaction that cancels the lagging watch, LARGE PREFIX (8 per block of 56 cases, one per quick shard: 240-400 keys k0000.. under the watched prefix created 50 per transaction - more than any page a reader might cut the range into -, all four Sync* kinds subscribed before or during the writes, at least one prefix consumer fast, 2-3 writers issue 35-55 operations each back to back: transactions (PutAndDelete) that put/delete a key of the first quarter AND a key of the last quarter of the sorted prefix plus 0-3 keys anywhere and sometimes the single watched key, 'moves' = delete one key and put a distant one in one transaction, single puts/deletes/same-value puts; every commit makes the syncers pull, so commits land while pulls are under way - observed as prefix snapshots of > 200 keys that equal the content at a revision strictly inside the writers' phase); each case ends with a chosen last change (value only, delete only, create only, delete+recreate, same value, txn swap, prefix delete, outside only, none).  Ground truth = Get(WithRev) of the key range at every revision of the case.  Every delivery - before, during and after an outage - must be the content at some revision at or after the subscription; a delivery that is not gets the signature <what it is>:<Sync kind>[:empty-snapshot][:while-server-down|:after-server-outage], where a snapshot equal to the content at NO revision is phantom-snapshot-mixes-several-store-revisions if every key taken alone had the snapshot's state (that value / absent) at some revision of the case (a snapshot assembled from reads at different revisions, e.g. keys written by one transaction half old and half new) and phantom-snapshot-never-a-store-content otherwise.  distinct = (case kind, subscription kind/mode/relay, ending, #deliveries bucket, final size bucket)")
 	r.Assume("relay subscriptions use the real syncer code with a second etcd client (through the harness relay) for the watch and the cluster's own client for pulls; the relay is black-holed only after the watch was established and never together with a server restart (a watch that must be (re)created while its connection is black-holed blocks the syncer loop, which cannot happen with the single client of production)")
 	r.Assume("bounded convergence replaces 'eventually': a subscription that differs from the final content and received nothing during 50 reference pull cycles (each = one pull interval of sleep + one successful pull through the cluster client, counted by the harness after the last write) is a violation; a firing 150 s watchdog otherwise is inconclusive")
 	r.Assume("a long outage is measured by the harness with lower bounds only: the server is kept stopped for at least request timeout (4 s) + 3 pull intervals after CloseServer returned and until a reference pull (cluster.GetRawPrefix, started one pull interval after the stop) has returned an error; the delivery phase (while-server-down / after-server-outage) in a signature comes from the consumer's receive time and only labels a violation, it never decides one")
@@ -1910,7 +2279,8 @@ func TestVerif_C19_Syncer(t *testing.T) {
 
 	// blocks of len(c19Pattern) shuffled kinds followed by c19LongPerBlock long outages
 	// with writes after the recovery and c19LongPerBlock long outages after the last write
-	blockLen := len(c19Pattern) + 2*c19LongPerBlock
+	// and c19LargePerBlock large-prefix cases
+	blockLen := len(c19Pattern) + 2*c19LongPerBlock + c19LargePerBlock
 	n := r.N(blockLen, 25*blockLen)
 	for i := 0; i < n; i++ {
 		if !r.Mine(i) {
@@ -1920,6 +2290,9 @@ func TestVerif_C19_Syncer(t *testing.T) {
 		kind := "outage-long"
 		if pos >= len(c19Pattern)+c19LongPerBlock {
 			kind = "outage-final"
+		}
+		if pos >= len(c19Pattern)+2*c19LongPerBlock {
+			kind = "large-prefix"
 		}
 		if pos < len(c19Pattern) {
 			pat := append([]string(nil), c19Pattern...)
@@ -1936,7 +2309,7 @@ func TestVerif_C19_Syncer(t *testing.T) {
 				return
 			}
 			root := fmt.Sprintf("/c19/%d-%d/", i, attempt)
-			cr := &c19Run{g: g, r: r, idx: i, cs: cs, root: root, P: root + "w/", interval: time.Duration(cs.IntervalMs) * time.Millisecond}
+			cr := &c19Run{g: g, r: r, idx: i, cs: cs, root: root, P: root + "w/", interval: time.Duration(cs.IntervalMs) * time.Millisecond, large: kind == "large-prefix"}
 			if cr.run() {
 				break
 			}
@@ -1976,4 +2349,16 @@ func TestVerif_C19_Syncer(t *testing.T) {
 	r.Require("subscriptions_behind_final_content_at_end_of_outage", 1)
 	r.Require("subscriptions_behind_at_end_of_outage_with_full_channel_at_stop", 1)
 	r.Require("converged_after_outage_by_periodic_pull_only", 1)
+	// the large-prefix class: hundreds of keys under the watched prefix, keys of distant
+	// regions changed atomically by concurrent writers, all four Sync* kinds checked, prefix
+	// snapshots of > 200 keys matched to ONE revision, some of them pulled while the
+	// writers were still committing
+	r.Require("large_prefix_cases_completed", 1)
+	r.Require("large_prefix_atomic_multi_key_commits", 1)
+	for _, k := range c19Kinds {
+		r.Require("large_prefix_subscriptions_checked:"+k, 1)
+	}
+	r.Require("large_prefix_snapshots_of_more_than_200_keys_matched_to_one_revision", 1)
+	r.Require("large_prefix_snapshots_pulled_while_writers_were_committing:SyncPrefix", 1)
+	r.Require("large_prefix_snapshots_pulled_while_writers_were_committing:SyncRawPrefix", 1)
 }
